@@ -22,7 +22,11 @@ def handle (op : String) (req : Json) : R Json := do
       match x with
       | c :: rest => if rest.all (· == c) && psf.sum == 1 then some c else none
       | [] => none
+    -- the modes handed straight to numpy (n ≥ m): full, valid, same (= full[(m-1)/2 ..][:n])
+    let full := fullConv x psf
     pure (jObj [("model", jRats out),
+                ("full", jRats full), ("valid", jRats (convValid x psf)),
+                ("same", jRats ((full.drop ((m - 1) / 2)).take (max n m))),
                 ("spec", jObj [("length", jNat n),
                                ("interior", jList (fun k => jList id [jNat k, jRat (fullConvAt x psf (k + shiftC))]) interior),
                                ("constant", jOpt jRat const)])])
